@@ -6,10 +6,52 @@ import (
 	"os"
 	"regexp"
 	"strings"
+	"sync"
 )
 
-// runRegistryModel evaluates the histories in Model/Registry.v (if present) and compares observations.
+// runRegistryModel evaluates the histories in Model/Registry.v and compares observations: shards of
+// 1000 histories, one coqc each, eight at a time (one file with all thorough-tier histories takes
+// longer than its time limit when other checks run beside it).
 func runRegistryModel(o *Options, res *Result, hists [][]regOp) error {
+	const per = 1000
+	nsh := (len(hists) + per - 1) / per
+	if nsh <= 1 {
+		return runRegistryShard(o, res, hists, 0)
+	}
+	errs := make([]error, nsh)
+	parts := make([]*Result, nsh)
+	sem := make(chan struct{}, 8)
+	var wg sync.WaitGroup
+	for sh := 0; sh < nsh; sh++ {
+		lo, hi := sh*per, (sh+1)*per
+		if hi > len(hists) {
+			hi = len(hists)
+		}
+		wg.Add(1)
+		go func(sh, lo, hi int) {
+			defer wg.Done()
+			sem <- struct{}{}
+			defer func() { <-sem }()
+			parts[sh] = NewResult()
+			errs[sh] = runRegistryShard(o, parts[sh], hists[lo:hi], sh)
+		}(sh, lo, hi)
+	}
+	wg.Wait()
+	for sh := range parts {
+		if errs[sh] != nil {
+			return errs[sh]
+		}
+		res.ModelEvals += parts[sh].ModelEvals
+		res.Mismatches += parts[sh].Mismatches
+		res.Notes = append(res.Notes, parts[sh].Notes...)
+		for _, v := range parts[sh].Violations {
+			res.AddViolation(v)
+		}
+	}
+	return nil
+}
+
+func runRegistryShard(o *Options, res *Result, hists [][]regOp, shard int) error {
 	if _, err := os.Stat(o.CoqDir + "/Model/Registry.vo"); err != nil {
 		res.Notes = append(res.Notes, "Model/Registry.vo not built: registry model correspondence skipped")
 		return nil
@@ -50,13 +92,13 @@ func runRegistryModel(o *Options, res *Result, hists [][]regOp) error {
 		names = append(names, fmt.Sprintf("h%d", i))
 	}
 	fmt.Fprintf(&sb, "Definition rverdicts := Eval vm_compute in map (fun h => registry_check hash (fst h) (snd h)) %s.\nPrint rverdicts.\n", gList(names))
-	dir := o.WorkDir + "/registry"
+	dir := fmt.Sprintf("%s/registry%d", o.WorkDir, shard)
 	_ = os.MkdirAll(dir, 0o755)
 	file := dir + "/cases.v"
 	if err := os.WriteFile(file, []byte(sb.String()), 0o644); err != nil {
 		return err
 	}
-	out, err := coqcCmd("1200", "-Q", o.CoqDir, "DT", "-Q", dir, "RCases", file).CombinedOutput()
+	out, err := coqcCmd("1500", "-Q", o.CoqDir, "DT", "-Q", dir, fmt.Sprintf("RCases%d", shard), file).CombinedOutput()
 	if err != nil {
 		return fmt.Errorf("coqc on %s: %v\n%s", file, err, tail(string(out), 1500))
 	}
